@@ -76,6 +76,43 @@ def switch_discr_place(body, bi):
     return None
 
 
+def _iterator_of_next(body, l):
+    """If local l is defined by `Iterator::next(&mut it)` return the local `it`."""
+    ds = body.defs.get(l, [])
+    if len(ds) != 1:
+        return None
+    bi, si = ds[0]
+    bb = body.blocks[bi]
+    if si != len(bb["stmts"]) or not bb["term"] or bb["term"]["k"] != "call" or not callee_matches(body.callee_of(bb["term"]), "Iterator::next"):
+        return None
+    a = bb["term"]["args"][0]
+    if a.get("k") not in ("move", "copy") or a["pl"]["p"]:
+        return None
+    cur = a["pl"]["l"]
+    for _ in range(4):
+        rd = body.defs.get(cur, [])
+        if len(rd) != 1:
+            return None
+        rb, rs = rd[0]
+        rbb = body.blocks[rb]
+        if rs >= len(rbb["stmts"]):
+            return None
+        st = rbb["stmts"][rs]
+        if st["k"] != "assign":
+            return None
+        rv = st["rv"]
+        if rv["k"] == "ref" and not rv["pl"]["p"]:
+            return rv["pl"]["l"]
+        if rv["k"] == "ref" and rv["pl"]["p"] == ["*"]:
+            cur = rv["pl"]["l"]  # reborrow `&mut *r`
+            continue
+        if rv["k"] == "use" and rv["op"].get("k") in ("move", "copy") and not rv["op"]["pl"]["p"]:
+            cur = rv["op"]["pl"]["l"]
+            continue
+        return None
+    return None
+
+
 def enum_variant_has_v(facts, ty, variant):
     base = strip_generics(ty.split("<")[0]) if "<" in ty else ty
     if base.endswith("option::Option"):
@@ -147,13 +184,19 @@ def live_drops(fl, body, pred=None):
         if atom is None or atom[0] != "variant" or not pol:
             return None
         pl = switch_discr_place(body, bi)
-        if pl is None or pl["p"] or pl["l"] not in vlocals:
+        if pl is None or pl["p"]:
             return None
-        if pred is v_bearing and not enum_variant_has_v(facts, body.locals[pl["l"]]["ty"], atom[2]):
-            moved = set(s.user or ())
-            if (pl["l"], ()) not in moved:
-                moved.add((pl["l"], ()))
-                return s.with_user(frozenset(moved))
+        moved = set(s.user or ())
+        n0 = len(moved)
+        if atom[2] == "None":
+            # `next(&mut it)` returned None: the iterator `it` is exhausted, it owns no value any more
+            it = _iterator_of_next(body, pl["l"])
+            if it is not None and it in vlocals:
+                moved.add((it, ()))
+        if pl["l"] in vlocals and pred is v_bearing and not enum_variant_has_v(facts, body.locals[pl["l"]]["ty"], atom[2]):
+            moved.add((pl["l"], ()))
+        if len(moved) != n0:
+            return s.with_user(frozenset(moved))
         return None
 
     at, entry = dataflow(body, init_user=frozenset(), node_fn=node_fn, edge_fn=edge_fn, max_states=3000, track_lits=False)
@@ -212,7 +255,7 @@ REMNANT = "Option / Result remnant: on the Some / Ok path the payload was moved 
 DISAGREE = ("reachable only when an admitted (not yet charged) New item finds its key already resident, i.e. when store and policy disagree (C06); with the pairing rules R06.x holding "
             "the entry is absent, the value is moved into the shard and the returned Option is None")
 AUDITED_DROPS = [
-    (r"^cache::Cache::wait(::\{closure#0\})?$", r"^(e|tmp)$", r"SendError<cache::Item<V>>", NO_VALUE + " (Wait; its token releases in Drop)"),
+    (r"^cache::Cache::wait(::\{closure#\d+\})*$", r"^(e|tmp)$", r"SendError<cache::Item<V>>", NO_VALUE + " (Wait; its token releases in Drop)"),
     (r"^cache::Cache::try_remove(::\{closure#0\})?$", r"^tmp$", r"^std::result::Result<\(\), .*SendError<cache::Item<V>>>$", NO_VALUE + " (Delete)"),
     (r"^cache::Cache::try_insert_in(::\{closure#0\})?$", r"^val$", r"^V$", "closed cache: the value is dropped and insert returns false (never accepted)"),
     (r"^cache::Cache::try_insert_in::\{closure#0\}$", r"^item$", r"^cache::Item<V>$", INSERT_FALSE),
@@ -257,7 +300,8 @@ def check_live_drops(rep, fl, rule="R08.1"):
             nfn = neutral_fn(b.spath)
             nty = neutral_ty(ty)
             for i_, (fre, nre, tre, reason) in enumerate(AUDITED_DROPS):
-                if re.search(fre, nfn) and re.search(nre, name) and re.search(tre, nty):
+                # the local's name is consulted only to tell bare `V` locals of one function apart
+                if re.search(fre, nfn) and (nty != "V" or re.search(nre, name)) and re.search(tre, nty):
                     why = reason
                     used.add(i_)
                     break
@@ -351,7 +395,7 @@ def check_routing(rep, fl, rule="R08.2"):
     rep.check(ok, rule, fl, hi, "on_evict(victim found in the store)", "a victim is handed to on_evict only when store.try_remove found it, with the removed value", "victim eviction does not hand exactly the removed value to on_evict")
     pe = facts.body(fl.processor + "::on_evict")
     ce = calls_to(pe, "CacheCallback::on_evict")
-    ok = len(ce) == 1 and norm(pe.call_args(ce[0][1])[1]) == V("item") and must_pass_through(pe, [ce[0][0]])
+    ok = len(ce) == 1 and norm(pe.call_args(ce[0][1])[1]) == V(pe.local_name.get(2, "arg2")) and must_pass_through(pe, [ce[0][0]])
     rep.check(ok, rule, fl, pe, "forwards item", "processor.on_evict forwards its item to the callback once", "processor.on_evict does not forward its item exactly once")
 
 
@@ -397,3 +441,6 @@ def check_C08(rep, fl):
     props_life.check_remove_pair(rep, fl)
     props_store.check_store_writes(rep, fl)
     props_life.check_no_err_between(rep, fl)
+    # the audited drop in ShardedMap::try_insert (the entry overwritten by shard.insert) is dead only
+    # while the processor inserts exactly the entries the policy has just admitted: premise R06.2
+    props_life.check_handle_item_pairing(rep, fl, collisions=False)
